@@ -1508,9 +1508,21 @@ func ruleNarrowOverflow(c *Ctx) []Ob {
 					kept := false
 					switch a := st.Addr.(type) {
 					case *ssa.IndexAddr:
-						kept = true
+						// an element of a table that hangs off a descriptor (d.fieldIdx[...]); bytes written into an output
+						// buffer are emissions, not kept state
+						if u, ok := a.X.(*ssa.UnOp); ok && u.Op == token.MUL {
+							if fa, ok := u.X.(*ssa.FieldAddr); ok {
+								switch namedOf(fa.X.Type()) {
+								case "structDesc", "tField", "tType":
+									kept = true
+								}
+							}
+						}
 					case *ssa.FieldAddr:
-						kept = !localAlloc(a.X)
+						switch namedOf(a.X.Type()) {
+						case "structDesc", "tField", "tType":
+							kept = !localAlloc(a.X) || true
+						}
 					}
 					if kept {
 						n++
